@@ -91,8 +91,11 @@ def _project(collection):
             txs.append([list(t._genomic_starts), list(t._genomic_ends), t.strand.to_symbol(),
                         list(t.cds._genomic_starts) if t.is_coding else [], list(t.cds._genomic_ends) if t.is_coding
                         else [], [f.value for f in t.cds.frames] if t.is_coding else [],
-                        str(t.transcript_symbol), str(t.protein_id), str(t.product)])
-        genes.append([g.start, g.end, str(g.locus_tag), str(g.gene_symbol), str(g.gene_type), sorted(txs)])
+                        str(t.transcript_symbol), str(t.protein_id), str(t.product),
+                        # the free-form qualifiers each transcript ends up with (what its own records said)
+                        sorted([str(k), sorted(map(str, v))] for k, v in (t.qualifiers or {}).items())])
+        genes.append([g.start, g.end, str(g.locus_tag), str(g.gene_symbol), str(g.gene_type), sorted(txs),
+                      sorted([str(k), sorted(map(str, v))] for k, v in (g.qualifiers or {}).items())])
     fcs = []
     for fc in collection.feature_collections:
         fcs.append([fc.start, fc.end, str(fc.locus_tag), sorted(
@@ -124,14 +127,23 @@ def _perm_events(args):
                 pos = e + rnd.randrange(3, 10)
             tag = "LT_%03d" % (g + 1)
             feats.append(("gene", [(blocks[0][0], blocks[-1][1])], strand, {"locus_tag": [tag], "gene": ["g%d" % g]}))
-            kind = rnd.choice(["cds", "mrna+cds", "trna"])
+            kind = rnd.choice(["cds", "mrna+cds", "trna", "mrna+2cds", "mrna+2cds"])
             if kind == "trna":
                 feats.append(("tRNA", blocks, strand, {"locus_tag": [tag], "product": ["tRNA-X"]}))
             else:
-                if kind == "mrna+cds":
-                    feats.append(("mRNA", blocks, strand, {"locus_tag": [tag], "gene": ["g%d" % g]}))
+                if kind != "cds":
+                    feats.append(("mRNA", blocks, strand, {"locus_tag": [tag], "gene": ["g%d" % g],
+                                                           "note": ["mrna note %d" % g], "db_xref": ["DB:m%d" % g]}))
                 feats.append(("CDS", blocks, strand, {"locus_tag": [tag], "codon_start": ["1"],
-                                                      "protein_id": ["P%d" % g], "product": ["prod %d" % g]}))
+                                                      "protein_id": ["P%d" % g], "product": ["prod %d" % g],
+                                                      "note": ["cds note %d" % g]}))
+                if kind == "mrna+2cds":
+                    # two coding regions annotated on one transcript record (alternative starts): each CDS record says
+                    # its own things about itself
+                    b2 = [(blocks[0][0] + 3, blocks[0][1])] + blocks[1:] if strand == 1 else blocks[:-1] + [(blocks[-1][0], blocks[-1][1] - 3)]
+                    feats.append(("CDS", b2, strand, {"locus_tag": [tag], "codon_start": ["1"], "protein_id": ["P%db" % g],
+                                                      "product": ["prod %d b" % g], "note": ["second cds note %d" % g],
+                                                      "db_xref": ["DB:c%d" % g]}))
             pos += 20
         seqlen = pos + 50
         perms = list(itertools.permutations(range(len(feats))))
